@@ -237,7 +237,7 @@ def gen_decided(rng, cid, mode='step'):
     rest = mains[1:]
     if rng.random() < 0.6:
         rng.shuffle(rest)
-    # the builder creates the shared events: it comes first, unless every program that names them sleeps before it does
+    # the builder creates the shared events: it always starts first
     c.mains = [first] + rest
     return c
 
